@@ -329,3 +329,33 @@ class CallGraph:
             for cs in self.sites(f):
                 d[cs.kind] = d.get(cs.kind, 0) + 1
         return d
+
+
+def register_call_signatures(P) -> int:
+    """For every call site whose callee is resolved inside the repository and whose candidate callees agree on the positional parameter
+    list, record that list (util.CALL_PARAMS, keyed by the call node).  util.kwarg / util.posarg / util.bound_args and the pattern matcher
+    use it to read an argument by parameter, whether it was passed positionally or by keyword, so that no rule depends on the spelling."""
+    from .dag import Expander
+    from . import util
+    X = Expander(P)
+    G = CallGraph(P, X)
+    util.CALL_PARAMS.clear()
+    for fi in list(P.all_functions()):
+        for cs in G.sites(fi):
+            if cs.kind not in ("direct", "self", "constructor") or not cs.targets:
+                continue
+            c = cs.node
+            if any(isinstance(a, ast.Starred) for a in c.args) or any(k.arg is None for k in c.keywords):
+                continue
+            sigs = set()
+            for t in cs.targets:
+                pp = list(t.positional_params)
+                if t.cls is not None and pp and pp[0] in ("self", "cls") and "staticmethod" not in t.decorators:
+                    pp = pp[1:]
+                if t.args.vararg or t.args.posonlyargs:
+                    pp = None
+                sigs.add(tuple(pp) if pp is not None else None)
+            if len(sigs) != 1 or None in sigs:
+                continue
+            util.CALL_PARAMS[id(c)] = (c, list(next(iter(sigs))))
+    return len(util.CALL_PARAMS)
